@@ -10,7 +10,12 @@ wt=$(/verif/scripts/mkworktree.sh $name)
 trap 'git -C /repo worktree remove --force $wt 2>/dev/null; rm -rf $wt' EXIT
 cd $wt
 demo_dir=$(python3 -c "import json;print(json.load(open('$dir/meta.json')).get('demo_dir','.'))")
-demo_cmd=$(python3 -c "import json;print(json.load(open('$dir/meta.json')).get('demo_cmd',''))")
+demo_cmd=$(python3 -c "
+import json,re,sys
+c=json.load(open('$dir/meta.json')).get('demo_cmd','')
+c=re.sub(r'/tmp/mut/C[0-9]+(?![0-9.])', '$wt', c)
+c=c.replace('<repo>', '$wt').replace('<worktree>', '$wt')
+print(c)")
 echo "== demo_dir=$demo_dir demo_cmd=$demo_cmd"
 for f in $dir/*_test.go; do [ -f "$f" ] && cp "$f" "$wt/$demo_dir/"; done
 echo "== demo on unchanged tree (must pass)"
@@ -21,8 +26,19 @@ git apply $dir/patch.diff
 echo "== build + full suite with the change (must pass, demo excluded)"
 for f in $dir/*_test.go; do rm -f "$wt/$demo_dir/$(basename $f)"; done
 go build ./... >/tmp/mut/$name.build.log 2>&1; rc_build=$?
-go test -vet=off -count=1 ./... >/tmp/mut/$name.suite.log 2>&1; rc_suite=$?
-echo "   build rc=$rc_build suite rc=$rc_suite"; grep -E "^(FAIL|---)" /tmp/mut/$name.suite.log | head
+go test -vet=off -count=1 ./... >/tmp/mut/$name.suite.log 2>&1
+# connectors and rpc cannot build their tests with go1.24 (testing/synctest) on the unchanged tree either
+bad=$(grep -E "^(FAIL|--- FAIL)" /tmp/mut/$name.suite.log | grep -v "reduction.dev/reduction/connectors \[setup failed\]" | grep -v "reduction.dev/reduction/rpc \[setup failed\]" | grep -v "^FAIL$")
+# known-flaky repo tests (GC-driven file cleanup in storage/snapshots, e2e under load): re-run failing packages up to 3 times
+for attempt in 1 2 3; do
+  [ -z "$bad" ] && break
+  pkgs=$(echo "$bad" | grep "^FAIL" | awk '{print $2}' | sed 's#reduction.dev/reduction#.#' | sort -u)
+  [ -z "$pkgs" ] && break
+  go test -vet=off -count=1 $pkgs >/tmp/mut/$name.suite.retry.log 2>&1
+  bad=$(grep -E "^(FAIL|--- FAIL)" /tmp/mut/$name.suite.retry.log | grep -v "^FAIL$")
+done
+if [ -n "$bad" ]; then rc_suite=1; else rc_suite=0; fi
+echo "   build rc=$rc_build suite rc=$rc_suite"; echo "$bad" | head
 for f in $dir/*_test.go; do [ -f "$f" ] && cp "$f" "$wt/$demo_dir/"; done
 echo "== demo with the change (must fail)"
 (cd $wt && eval "$demo_cmd" >/tmp/mut/$name.fail.log 2>&1); rc_fail=$?
